@@ -547,6 +547,15 @@ class Setup:
                 except Exception:
                     continue
                 self.kind1[p] = container_kind(v)
+        # row orders "sorted by a property" (NaN last, stable), from the reference catalog
+        self.sort_keys = {}
+        for p in (['segment_flux', 'area', 'max_value', 'xcentroid', 'kron_flux'] if cls == 'sc'
+                  else ['sum', 'max', 'xcentroid', 'mean']):
+            try:
+                vals = np.asarray(getattr(getattr(ref, p), 'value', getattr(ref, p)), float)
+                self.sort_keys[p] = [int(i) for i in np.argsort(vals, kind='stable')]
+            except Exception:
+                pass
         self.public = [p for p in info['public'] if p not in self.unevaluable]
         self.lazy_ok = [p for p in lazy if p not in self.unevaluable]
 
@@ -787,6 +796,14 @@ def execute(desc):
                     obs.append(f'(IErr {err})')
                 else:
                     obs.append('IUnit')
+                    if d['kind'] in ('get1', 'getn') and not od.get('invalid'):
+                        req = [d['label']] if d['kind'] == 'get1' else list(d['labels'])
+                        if raw_labels(ch) != [int(x) for x in req]:
+                            what_m = 'get_label(s)' if desc['cls'] == 'sc' else 'get_id(s)'
+                            viol.append((f'{cname}.{"get_labels" if desc["cls"] == "sc" else "get_ids"}:wrong-rows',
+                                         f'{what_m}({req}) on a catalog with rows {raw_labels(c)} returned rows '
+                                         f'labelled {raw_labels(ch)}', {'case': desc, 'request': req, 'cat': j}, True))
+                            od = dict(od, invalid=True)   # reported once; not compared property by property
                     if not is_scalar(c) and not od.get('invalid'):
                         labs_c = raw_labels(c)
                         pos, scalar = index_positions(d, len(labs_c), labs_c)
@@ -966,6 +983,51 @@ def gen_case(rng, cls, scene_seed, cfg, S):
         cats.append(([labs[i] for i in pos], sc))
         return len(cats) - 1
 
+    def do_index_explicit(j, d):
+        labs, scalar = cats[j]
+        pos, sc = index_positions(d, len(labs), labs)
+        ops.append({'op': 'index', 'j': j, 'idx': d})
+        cats.append(([labs[i] for i in pos], sc))
+        return len(cats) - 1
+
+    def reorder_then_lookup():
+        """Rows reordered by a permutation that is not its own inverse (3-cycles, sorted-by-property
+        orders), possibly a sub-selection, then get_label(s)/get_id(s) with scalars, shuffled lists
+        and repeats on the reordered catalog."""
+        kind = rng.choice(['perm', 'perm', 'sortby', 'subperm'])
+        if kind == 'sortby':
+            keyp = rng.choice([p for p in (['segment_flux', 'area', 'max_value', 'xcentroid', 'kron_flux']
+                                           if cls == 'sc' else ['sum', 'max', 'xcentroid', 'mean'])
+                               if p in S.sort_keys] or [None])
+            perm = list(S.sort_keys[keyp]) if keyp else list(range(n))
+            if rng.random() < 0.5:
+                perm.reverse()
+        else:
+            perm = list(range(n))
+            for _ in range(20):
+                rng.shuffle(perm)
+                if any(perm[perm[i]] != i for i in range(n)):     # not an involution
+                    break
+            if kind == 'subperm' and n >= 4:
+                perm = perm[:rng.randint(3, n - 1)]
+        form = rng.choice(['list', 'array'])
+        cp = do_index_explicit(0, {'kind': form, 'l': [int(i) for i in perm]})
+        ops.append({'op': 'dict', 'j': cp})
+        labs = cats[cp][0]
+        if rng.random() < 0.4:
+            pre_eval(cp, rng.choice([2, 8]))
+        cq = do_index_explicit(cp, {'kind': 'get1', 'label': int(rng.choice(labs))})
+        k = rng.randint(2, min(len(labs), 4))
+        req = rng.sample(labs, k)
+        if rng.random() < 0.5:
+            req.insert(rng.randrange(len(req) + 1), rng.choice(req))      # a repeated label
+        cr = do_index_explicit(cp, {'kind': 'getn', 'labels': [int(x) for x in req]})
+        if rng.random() < 0.4 and len(cats[cr][0]) >= 3:                   # look up again in the looked-up catalog
+            sub = rng.sample(sorted(set(cats[cr][0])), 1)
+            if cats[cr][0].count(sub[0]) == 1:
+                do_index_explicit(cr, {'kind': 'get1', 'label': int(sub[0])})
+        ops.append({'op': 'dict', 'j': cr})
+
     if S.precached:      # lazyproperties already evaluated by __init__
         ops.append({'op': 'eval', 'j': 0, 'p': S.precached[-1], 'forced_trace': S.precached[:-1]})
     pre_eval(0, rng.choice([0, 0, 2, 6, 20, 60, len(lazy_ok)]))
@@ -990,6 +1052,8 @@ def gen_case(rng, cls, scene_seed, cfg, S):
         pre_eval(0, rng.choice([2, 10]))
         c3 = do_index(0)
         ops.append({'op': 'dict', 'j': c3})
+    if n >= 3 and rng.random() < 0.4:
+        reorder_then_lookup()
     if rng.random() < 0.15:                    # invalid index expressions
         j = rng.randrange(len(cats))
         m = len(cats[j][0])
@@ -1089,7 +1153,9 @@ def run(ctx):
     ctx.cov['rule'] = ('histories on real SourceCatalog / ApertureStats objects built on small scenes (blobs, flat 2-pixel, '
                        '1-pixel, fully masked, NaN-pixel, negative, frame-edge sources; options error/mask/background/'
                        'wcs/localbkg_width/kron_params(2,3)/apermask_method/detection_cat/units): random subset of '
-                       'lazyproperties evaluated first, every index form, slices of slices, extra-property and '
+                       'lazyproperties evaluated first, every index form, slices of slices, rows reordered by non-involutive '
+                       'permutations / sorted-by-property orders followed by get_label(s)/get_id(s) lookups (scalars, '
+                       'shuffled lists, repeats), extra-property and '
                        'photometry operations on parent or child, then every public property read on every catalog; '
                        'non-trivial = at least one successful indexing; distinct = distinct (scene, config, history)')
     ctx.assumptions += ['the body of a property is not modelled: which other lazyproperties it runs is observed '
@@ -1135,6 +1201,11 @@ def run(ctx):
         for o in d['ops']:
             ctx.stat('ops', o['op'] + (':' + o['idx']['kind'] if o['op'] == 'index' else ''))
         ctx.stat('cases', d['cls'])
+        nlook = sum(1 for i, o in enumerate(d['ops']) if o['op'] == 'index' and o['idx']['kind'] in ('get1', 'getn')
+                    and any(q['op'] == 'index' and q['idx']['kind'] in ('list', 'array') and q['j'] == 0
+                            and len(q['idx']['l']) >= 3 for q in d['ops'][:i]))
+        if nlook:
+            ctx.stat('lookups', 'get_label(s)/get_id(s) on a catalog reordered by a list/array index', nlook)
         ctx.count_case(json.dumps(d, sort_keys=True, default=str), bool(r['rel']))
         ctx.support('direct oracle: cat[idx].p == cat.p[idx] == fresh.p[sources] (property values compared)',
                     sum(len(v) for v in r['final'].values()))
